@@ -16,7 +16,7 @@ type planeSDF struct {
 }
 
 func (s *planeSDF) Evaluate(p v3.Vec) float64 { return p.Sub(s.a).Dot(s.n) }
-func (s *planeSDF) BoundingBox() sdf.Box3      { return s.bb }
+func (s *planeSDF) BoundingBox() sdf.Box3     { return s.bb }
 
 type measObs struct {
 	Ev       string `json:"ev"`
@@ -25,16 +25,16 @@ type measObs struct {
 	R        string `json:"r"`
 	Cells    int    `json:"cells"`
 	Nt       int    `json:"nt"`
-	MaxF     int64  `json:"maxf"`    // max |f(v)| / h * 1e6
-	Sphere   int64  `json:"sphere"`  // max |f(v)| * 8 (R-h) / h^2 * 1e6 (spheres only, else 0)
-	PlaneF   int64  `json:"planef"`  // max |f(v)| / h * 1e12 (planes: rounding only)
+	MaxF     int64  `json:"maxf"`     // max |f(v)| / h * 1e6
+	Sphere   int64  `json:"sphere"`   // max |f(v)| * 8 (R-h) / h^2 * 1e6 (spheres only, else 0)
+	PlaneF   int64  `json:"planef"`   // max |f(v)| / h * 1e12 (planes: rounding only)
 	MeshSurf int64  `json:"meshsurf"` // max over triangle centroids/vertices of |f| / celldiag * 1e6 (exact fields)
 	SurfMesh int64  `json:"surfmesh"` // max over sampled resolvable surface points of dist to mesh / celldiag * 1e6
 	Outside  int    `json:"outside"`  // vertices outside the sampled (padded) box
 	BadNorm  int    `json:"badnorm"`  // non-sliver triangles whose normal disagrees with the gradient
 	VolErr   int64  `json:"volerr"`   // |V - Vtrue| / Vtrue * 1e6 (0 if unknown)
 	HasVol   bool   `json:"hasvol"`
-	Seq      int    `json:"seq"`      // resolution index within the shape (for convergence)
+	Seq      int    `json:"seq"` // resolution index within the shape (for convergence)
 	Param    string `json:"param"`
 }
 
@@ -181,7 +181,7 @@ func c06Measure(args []string) error {
 		sps := sdf.Transform3D(sp, sdf.Translate3d(c))
 		shapes = append(shapes, measShape{name: "sphere", kind: "sphere", s: sps, radius: R, vol: 4.0 / 3 * math.Pi * R * R * R,
 			param: fmtf(R, c.X, c.Y, c.Z),
-			surf: func(r *rand.Rand) (v3.Vec, bool) { return c.Add(randUnit(r).MulScalar(R)), true }})
+			surf:  func(r *rand.Rand) (v3.Vec, bool) { return c.Add(randUnit(r).MulScalar(R)), true }})
 		// plane at arbitrary orientation / offset inside a unit-ish box
 		n := randUnit(rnd)
 		a := v3.Vec{X: rnd.Float64() - 0.5, Y: rnd.Float64() - 0.5, Z: rnd.Float64() - 0.5}.MulScalar(0.6)
